@@ -198,11 +198,32 @@ fn run_hex(j: &Value) -> Value {
             write_eeprom_hex(path.clone(), &br)
         }
     }));
-    match r {
+    let mut out = match r {
         Ok(Ok(())) => json!({"r": "ok", "path": path.to_string_lossy()}),
         Ok(Err(e)) => json!({"r": "err", "text": format!("{}", e)}),
         Err(p) => json!({"r": "panic", "text": panic_text(p)}),
+    };
+    // the same result object, its image rewritten in place (same buffer, same length), written once more
+    if let Some(seed2) = j.get("again_seed").and_then(|v| v.as_u64()) {
+        let buffer = if which == "code" { &mut br.code } else { &mut br.eeprom };
+        for (i, b) in buffer.iter_mut().enumerate() {
+            *b = img(seed2, i as u64);
+        }
+        let path2 = PathBuf::from(format!("{}.2", path.to_string_lossy()));
+        let r2 = catch_unwind(AssertUnwindSafe(|| {
+            if which == "code" {
+                write_code_hex(path2.clone(), &br)
+            } else {
+                write_eeprom_hex(path2.clone(), &br)
+            }
+        }));
+        out["again"] = match r2 {
+            Ok(Ok(())) => json!({"r": "ok", "path": path2.to_string_lossy()}),
+            Ok(Err(e)) => json!({"r": "err", "text": format!("{}", e)}),
+            Err(p) => json!({"r": "panic", "text": panic_text(p)}),
+        };
     }
+    out
 }
 
 fn srcs(j: &Value) -> Vec<String> {
